@@ -1,5 +1,5 @@
 pub type Coin = BigNum;
-opaque_types!(PlutusScriptSourceEnum, DatumSourceEnum, PlutusData, ExUnits, NativeScriptSourceEnum, Certificate, ScriptHash, AssetMintMap);
+opaque_types!(PlutusScriptSourceEnum, DatumSourceEnum, PlutusData, ExUnits, NativeScriptSourceEnum, Certificate, ScriptHash, AssetMintMap, Voter, VotesOfVoter);
 pub type PolicyID = ScriptHash;
 clone_eq!(PlutusScriptSourceEnum, DatumSourceEnum, PlutusData, ExUnits, RedeemerTag);
 impl vstd::std_specs::convert::FromSpecImpl<usize> for BigNum {
